@@ -76,7 +76,7 @@ CHAIN_TEMPLATES = {
                                     '<p tal:on-error="string:handled"><u metal:use-macro="macros[\'m\']"/></p>\n'
                                     '<b>${L(0)}</b>\n <q tal:content="L(1)"/></div>', 2, {0: ['L(0)'], 1: ['L(1)']}),
     # a failure inside a slot filler: the failing expression first, then the use-macro call site
-    'filler-failure': ('<div><hide tal:condition="False"><p metal:define-macro="m">A<b metal:define-slot="s">d</b>'
+    'filler-failure': ('<div><hide tal:condition="False"><p metal:define-macro="m">A ${1 + 1}<b metal:define-slot="s">d</b>'
                        '${L(1)}</p></hide>\n<u metal:use-macro="macros[\'m\']">\n  <i metal:fill-slot="s">x ${L(0)}</i></u>'
                        '</div>', 2, {0: ['L(0)', "macros['m']"], 1: ['L(1)', "macros['m']"]}),
     'recursive-macro': ('<div metal:define-macro="tree" tal:define="d d + 1">\n ${L(0) if d == 3 else d}\n'
